@@ -10,7 +10,8 @@
 //   shrink X DIR IDX            calls PPL::shrink_to_congruence_no_check on COPIES of the components with the
 //                               IDX-th minimized congruence of the first one (DIR 12: (d1,d2), 21: (d2,d1))
 // Every command is answered by one `res`/`ans` line followed by one `st` line per live object:
-//   st X FLAG DIM | <comp1> | <comp2> | ok B          comp = P|G  EMPTY(0|1)  cons K ... | cgs K ...
+//   st X FLAG DIM | <comp1> | <comp2> | ok B B1 B2 I  comp = P|G  EMPTY(0|1)  cons K ... | cgs K ...
+//   (B = OK(), B1/B2 = d1.OK()/d2.OK(), I = with the flag set, one more product_reduce leaves d1 and d2 equal)
 // Components are read from COPIES of the private members d1/d2, never through domain1()/domain2(),
 // so that printing does not trigger reduce().
 #define VH_PRIVATE_ACCESS
@@ -99,8 +100,12 @@ struct ProdT : IProd {
     unsigned d = p.d1.space_dimension();
     std::cout << "st " << id << " " << (p.reduced ? 1 : 0) << " " << d << " | ";
     print_comp(std::cout, p.d1, d); std::cout << " | "; print_comp(std::cout, p.d2, d);
-    bool ok = false; try { ok = p.OK(); } catch (...) { ok = false; }
-    std::cout << " | ok " << (ok ? 1 : 0) << "\n";
+    bool ok = false, ok1 = false, ok2 = false, idem = true;
+    try { ok = p.OK(); ok1 = p.d1.OK(); ok2 = p.d2.OK(); } catch (...) { ok = false; }
+    if (p.reduced) {   // what OK() tests for a product flagged as reduced: one more reduction changes nothing
+      try { P q(p); q.clear_reduced_flag(); q.reduce(); idem = (q.d1 == p.d1 && q.d2 == p.d2); } catch (...) { idem = false; }
+    }
+    std::cout << " | ok " << (ok ? 1 : 0) << " " << (ok1 ? 1 : 0) << " " << (ok2 ? 1 : 0) << " " << (idem ? 1 : 0) << "\n";
   }
   void set_comp(int w, const Constraint_System& cs, const Congruence_System& cgs) {
     unsigned d = dim();
